@@ -29,6 +29,8 @@ SOURCES = {
     "no-eeprom": ".device ATtiny11\nnop\nrjmp 0\n",
     "no-ram": ".device AT90S1200\nnop\n.eseg\n.db 1, 2\n",
     "small-part": ".device ATtiny13\n.dseg\nv: .byte 5\n.cseg\nldi r16, 1\n.eseg\n.db 7\n",
+    # includes a file by name: found next to the source as named on the command line
+    "with-include": ".include \"defs.inc\"\nldi r16, variant\n.eseg\n.db variant\n",
     # 4 KiB of code: its HEX file (about 11 KB) does not fit a 2 KiB file size limit
     "code4k": "".join(".dw 0x%04x\n" % (i * 7 % 65536) for i in range(2048)) + ".eseg\n.db 1, 2, 3\n",
     # an image a little over 1 MiB: 16 full 64 KiB blocks and a partly filled 17th
@@ -66,12 +68,19 @@ def scenario(root, srcname, srcform, oloc, eloc, verbose, fname="prog.asm"):
     os.makedirs(proj)
     os.makedirs(os.path.join(root, "out"))
     missing = srcname == "missing-source"
+    if srcname == "with-include":
+        with open(os.path.join(proj, "defs.inc"), "w") as f:
+            f.write(".equ variant = 2\n")
     if not missing and fname == "link.asm":
         # the source is reached through a symbolic link: outputs go next to the name that was given
         os.makedirs(os.path.join(root, "shared"))
         with open(os.path.join(root, "shared", "blink_v2.asm"), "w") as f:
             f.write(SOURCES[srcname])
         os.symlink("../shared/blink_v2.asm", os.path.join(proj, fname))
+        if srcname == "with-include" and srcform != "rel-dir":
+            # another defs.inc beside the file the link points to (not always: the include must also be found when only the link's directory has it)
+            with open(os.path.join(root, "shared", "defs.inc"), "w") as f:
+                f.write(".equ variant = 1\n")
     elif not missing:
         with open(os.path.join(proj, fname), "w") as f:
             f.write(SOURCES[srcname])
@@ -178,7 +187,7 @@ def check(prop, tier, seed):
         stdinc = os.path.join(home, ".config", "avra-rs", "includes")
         rnd = random.Random(seed)
         combos = []
-        srcs = [s_ for s_ in SOURCES if s_ not in SPECIAL and s_ not in ("no-eeprom", "no-ram", "small-part")] + ["missing-source"]
+        srcs = [s_ for s_ in SOURCES if s_ not in SPECIAL and s_ not in ("no-eeprom", "no-ram", "small-part", "with-include")] + ["missing-source"]
         for srcname in srcs:
             for oloc in LOCS:
                 for eloc in LOCS:
@@ -204,10 +213,12 @@ def check(prop, tier, seed):
         for srcname in ("no-eeprom", "no-ram", "small-part", "code+eeprom", "big"):
             combos.append((srcname, "abs", "default", "default", True, "prog.asm"))
             combos.append((srcname, "rel-here", "writable", "writable", True, "prog.asm"))
-        for srcname in ("code+eeprom", "code", "fail-pass2"):
+        for srcname in ("code+eeprom", "code", "fail-pass2", "with-include"):
             for srcform in ("abs", "rel-dir", "rel-here"):
                 for oloc, eloc in (("default", "default"), ("writable", "default")):
                     combos.append((srcname, srcform, oloc, eloc, False, "link.asm"))
+                    if srcname == "with-include":
+                        combos.append((srcname, srcform, oloc, eloc, False, "prog.asm"))
         for srcname in ("code+eeprom", "code", "fail-pass2"):
             for srcform in ("abs", "rel-here"):
                 combos.append((srcname, srcform, "source", "default", False, "prog.asm"))
@@ -244,6 +255,8 @@ def check(prop, tier, seed):
             libroot = scratch.sub("l%d" % i)
             lname = fname if fname.isprintable() else "prog.asm"       # the library's result does not depend on the name
             files = {} if srcname == "missing-source" else {"proj/" + lname: SOURCES[srcname]}
+            if srcname == "with-include":
+                files["proj/defs.inc"] = ".equ variant = 2\n"
             libjobs.append({"k": "file", "id": i, "root": libroot, "files": files, "dirs": ["proj"],
                             "cwd": "" if srcform != "rel-here" else "proj",
                             "main": {"abs": libroot + "/proj/" + lname, "rel-dir": "proj/" + lname, "rel-here": lname}[srcform],
